@@ -7,6 +7,7 @@ package surface
 
 import (
 	"math/rand"
+	"os"
 	"strings"
 	"unicode"
 
@@ -386,4 +387,13 @@ func ParenAfterClauseKeyword(ts []Tok) bool {
 		}
 	}
 	return false
+}
+
+// SilenceConsole: ANTLR's default ConsoleErrorListener prints every syntax
+// error of the parser under test on os.Stderr; the harness makes thousands of
+// ill-formed texts on purpose.
+func SilenceConsole() {
+	if dn, err := os.OpenFile(os.DevNull, os.O_WRONLY, 0); err == nil {
+		os.Stderr = dn
+	}
 }
